@@ -350,7 +350,14 @@ func (m *MsgClaim) ValidateBasic() (err error) {
 	if !ok {
 		return sdkerrors.ErrInvalidRequest.Wrapf("expected claim type %T, got %T", new(ExternalClaim), m.Claim.GetCachedValue())
 	}
-	return claim.ValidateBasic()
+	if err = claim.ValidateBasic(); err != nil {
+		return err
+	}
+	// the transaction is signed by m.BridgerAddress, the vote is counted for the claim's bridger
+	if bridger, err := sdk.AccAddressFromBech32(m.BridgerAddress); err != nil || !bridger.Equals(claim.GetClaimer()) {
+		return sdkerrors.ErrInvalidAddress.Wrap("bridger address does not match the claim's bridger address")
+	}
+	return nil
 }
 
 func (m *MsgClaim) GetSigners() []sdk.AccAddress {
